@@ -141,7 +141,7 @@ def worker(args):
 
 def run(ctx):
     server_bin("rel")
-    nprog, nh = (25, 60) if ctx.quick else (1500, 4000)
+    nprog, nh = (80, 150) if ctx.quick else (1500, 4000)
     for p in pmap(worker, [("%s/%d" % (ctx.seed, i), nprog, nh) for i in range(NCPU)]): ctx.merge(p)
     ctx.rule = ("classification: well-typed generated programs in all layouts (multi-line gaps, several declarations, comments between declarations, CRLF): every keyword, number, comment and "
                 "identifier must carry its class / binding kind, `declaration` exactly on declaring occurrences; well-formedness: the same plus hostile documents (token soup, mutated programs, "
